@@ -24,8 +24,8 @@ CLAIMS = {
             '§4.3, §6-C07'),
     'C08': ('model_checking',
             'TLA+ state machine of the processor cache (ZoneProc.tla) checked exhaustively by TLC; every model transition replayed into the real classes (ASan+UBSan build) with answer and projected state compared; random call histories recorded from the real code validated by ZoneProc_Trace.tla',
-            'TLC proves HistoryIndependent / NoNullDeref / ErrorsRepeat / ContentCoherent / OneSlotPerZone for every reachable state of the model (all histories of any length over 3 zones x 4 years x 6 operations, direct handles sharing a processor, managers with 1-2 slots) as state invariants quantified over every enabled call, and refutes the parameterisation that mirrors the code as found. Every edge of the model graph is then replayed in the real BasicZoneProcessor/ExtendedZoneProcessor/TimeZone/ZoneManager: each answer must equal a freshly constructed time zone\'s answer (the property itself) and the projected state (bound zone, cached year, filled flag, round-robin index) must equal the model\'s. Seeded random histories (cache sizes 1..4, more zones than slots, out-of-range and Jan-1 arguments) are checked the same way and validated as traces by TLC.',
-            'Trusted: hostshim; the driver reads private members through a private->public include (driver only); ASan/UBSan as crash/UB monitors. The Python ZoneSpecifier cache is not covered by this check yet.',
+            'TLC proves HistoryIndependent / NoNullDeref / ErrorsRepeat / ContentCoherent / OneSlotPerZone for every reachable state of the model (all histories of any length over 3 zones x 4 years x 6 operations, direct handles sharing a processor, managers with 1-2 slots) as state invariants quantified over every enabled call, and refutes the parameterisation that mirrors the code as found. Every edge of the model graph is then replayed in the real BasicZoneProcessor/ExtendedZoneProcessor/TimeZone/ZoneManager: each answer must equal a freshly constructed time zone\'s answer (the property itself) and the projected state (bound zone, cached year, filled flag, round-robin index) must equal the model\'s. Seeded random histories (cache sizes 1..4, more zones than slots, out-of-range and Jan-1 arguments) are checked the same way and validated as traces by TLC. The Python ZoneSpecifier year cache is driven with seeded histories (seconds / datetime / init_for_year calls, all option combinations) on every zone, a reused object against a fresh one per call.',
+            'Trusted: hostshim; the driver reads private members through a private->public include (driver only); ASan/UBSan as crash/UB monitors.',
             '§4.4, §6-C08'),
     'C10': ('model_checking',
             'TLA+ algorithm-level spec of the registrar (Registrar.tla, uint16 arithmetic) checked by TLC for safety and, under weak fairness, termination; every case replayed on the real ZoneRegistrar/ZoneManager with an injected logging comparator: probe sequences must equal the model\'s',
